@@ -104,11 +104,17 @@ def configs(tier):
         {'b': [['goto', 'c']], 'c': [['goto', 'b']]},   # endless chain entered from a
         {'a': [['goto', 'b']]},                     # chain during initialisation
         {'c': [['ev', 'nx']]},
+        {'a': [['ev', 'go']]},                      # a TABLE event chained while the FSM initialises:
+        {'a': [['ev', 'go']], 'b': [['ev', 'nx']]},  # conditions are not consulted before the FSM is initialised
     ]
     for i, ch in enumerate(chains):
         for cm in ('absent', True, False):
             out.append(dict(kind='chain', states=['a', 'b', 'c'], rules=ch_rules, chain=ch,
                             cond={'nx': [cm, 'absent']}, idx=i))
+            if 'a' in ch and ch['a'][0][0] == 'ev':
+                for cc in ('absent', True, False):
+                    out.append(dict(kind='chain', states=['a', 'b', 'c'], rules=ch_rules, chain=ch,
+                                    cond={'go': [cm, cc], 'nx': [cm, 'absent']}, idx=i))
     # two FSMs: A's on_exit/on_enter events are handled (accepted / rejected) by B in the middle
     # of A's transition; every action must still read the data of its own event
     for bvar in ('accept', 'notrans', 'condfalse', 'chain'):
